@@ -178,12 +178,18 @@ func genProto(t *rapid.T) protoDesc {
 type rtCase struct {
 	Protos []protoDesc // construction order
 	Perm   []int       // second construction order (sort keys)
+	Mut    int         // which protocol the sibling metadata (encoded afterwards) differs in
 }
 
 func genRT(t *rapid.T) rtCase {
 	n := rapid.IntRange(1, 6).Draw(t, "n")
-	c := rtCase{}
+	c := rtCase{Mut: rapid.IntRange(0, 5).Draw(t, "mut")}
+	large := rapid.IntRange(0, 9).Draw(t, "large") == 0 // an encoding of several KiB
 	for i := 0; i < n; i++ {
+		if large && i > 0 {
+			c.Protos = append(c.Protos, protoDesc{Kind: "unknown", Code: genUnknownCode(t), Payload: gen.BoundaryBytes(700, 1000, 1023).Draw(t, "bigpayload")})
+			continue
+		}
 		if i > 0 && rapid.IntRange(0, 5).Draw(t, "dup-id") == 0 {
 			// another protocol with an ID already present
 			prev := c.Protos[rapid.IntRange(0, i-1).Draw(t, "dupof")]
@@ -342,6 +348,37 @@ func runRT(c rtCase) pbt.Result {
 	if err != nil || !bytes.Equal(b3, b) {
 		return merge(res, pbt.Failf("decode->encode of %x gives %x (err %v)", b, b3, err))
 	}
+	// an encoding, once returned, is the caller's: encoding a sibling metadata (one protocol changed) afterwards
+	// must not change it
+	snap := append([]byte(nil), b...)
+	sib := append([]protoDesc(nil), c.Protos...)
+	k := c.Mut % len(sib)
+	switch sib[k].Kind {
+	case "unknown":
+		np := append([]byte(nil), sib[k].Payload...)
+		if len(np) == 0 {
+			np = []byte{0x5a}
+		} else {
+			np[len(np)-1] ^= 0x41
+		}
+		sib[k].Payload = np
+	case "graphsync":
+		sib[k].Verified = !sib[k].Verified
+	default:
+		sib = append(sib, protoDesc{Kind: "unknown", Code: 0x3f0001, Payload: []byte{byte(c.Mut)}})
+	}
+	_, sgroups := groupsOf(sib)
+	smd := metadata.Default.New(protosIn(sib)...)
+	sb, err := smd.MarshalBinary()
+	if err != nil || !matchGroups(sb, sgroups) {
+		return merge(res, pbt.Failf("sibling metadata %+v: MarshalBinary = %x (err %v), not the canonical concatenation", sib, sb, err))
+	}
+	if !bytes.Equal(b, snap) {
+		return merge(res, pbt.Failf("the encoding of %+v changed from %x to %x when another metadata (%+v) was encoded afterwards: encodings share memory", c.Protos, snap, b, sib))
+	}
+	if !bytes.Equal(b3, snap) {
+		return merge(res, pbt.Failf("the re-encoding of the decoded metadata changed when another metadata was encoded afterwards"))
+	}
 	return res
 }
 
@@ -361,7 +398,7 @@ func merge(base, f pbt.Result) pbt.Result {
 
 func TestC11_RoundTrip(t *testing.T) {
 	pbt.Run(t, pbt.Config{Prop: "C11", Unit: "TestC11_RoundTrip",
-		Rule: "multisets of 1..6 protocols (bitswap, gateway, graphsync-filecoin with drawn piece CID and flags, unknown codes 0..2^62 with payloads 0..900 B, repeated IDs) in two drawn construction orders; oracle: MarshalBinary = concatenation of independently specified protocol encodings in ascending ID order (equal IDs in any order), decode is Equal, every ID retrievable, decode->encode identity. Non-trivial: >=3 protocols, or a protocol after the CBOR-encoded one, or an unknown payload >127 B; distinct by case.",
+		Rule: "multisets of 1..6 protocols (bitswap, gateway, graphsync-filecoin with drawn piece CID and flags, unknown codes 0..2^62 with payloads 0..900 B, one case in ten with payloads near 700 / 1000 / 1023 B so that the encoding reaches several KiB, repeated IDs) in two drawn construction orders; oracle: MarshalBinary = concatenation of independently specified protocol encodings in ascending ID order (equal IDs in any order), decode is Equal, every ID retrievable, decode->encode identity; a returned encoding does not change when a sibling metadata (one protocol altered) is encoded afterwards. Non-trivial: >=3 protocols, or a protocol after the CBOR-encoded one, or an unknown payload >127 B; distinct by case.",
 	}, genRT, runRT)
 }
 
